@@ -914,8 +914,93 @@ def body(R):
                                    {"fn": "replay_alter", "args": [tree, with_hook, via_split, flow_to_json(fl)]})
 
 
+# ---- a plain callable is a MAP: whatever it returns is one value of the outgoing flow
+RESULT_KINDS = ["generator", "iterator", "list", "tuple", "dict", "none", "generator-of-nothing"]
+
+
+def _container_result(kind):
+    def f(v):
+        x = v[0] if isinstance(v, tuple) else v
+        if kind == "generator":
+            return (x + i for i in range(2))
+        if kind == "generator-of-nothing":
+            return (i for i in ())
+        if kind == "iterator":
+            return iter([x, x + 1])
+        if kind == "list":
+            return [x, x + 1]
+        if kind == "tuple":
+            return (x, x + 1, x + 2)
+        if kind == "dict":
+            return {"x": x}
+        return None
+    return f
+
+
+def _describe(v):
+    """the next element takes the callable's result as ONE datum"""
+    if v is None or isinstance(v, (list, tuple, dict)):
+        return ("one", type(v).__name__, repr(v))
+    return ("one", type(v).__name__, repr(list(v)))
+
+
+def container_result_case(kind, form, n):
+    """returns (fid, text) or None"""
+    f = _container_result(kind)
+    flow = [k * 10 for k in range(n)]
+    exp = [_describe(f(v)) for v in flow]
+    try:
+        with watchdog(5):
+            if form == "flat":
+                got = list(Sequence(f, _describe).run(iter(flow)))
+            elif form == "nested-left":
+                got = list(Sequence(Sequence(f), _describe).run(iter(flow)))
+            elif form == "nested-right":
+                got = list(Sequence(f, Sequence(_describe)).run(iter(flow)))
+            elif form == "source":
+                got = list(Source(lambda: iter(flow), f, _describe)())
+            elif form == "adapter":
+                got = [_describe(v) for v in adapters.Run(f).run(iter(flow))]
+            else:
+                raise ValueError(form)
+    except Timeout:
+        return "non-termination", "did not return"
+    except Exception as e:
+        return "raises:" + type(e).__name__, "%s: %s" % (type(e).__name__, str(e)[:150])
+    if got != exp:
+        return "result-of-a-callable-is-not-one-value", "got %r, the composition of the two maps gives %r" % (got, exp)
+    return None
+
+
+def replay_container_result(kind, form, n):
+    return container_result_case(kind, form, n) is not None
+
+
+def body_callable_results(R):
+    forms = ["flat", "nested-left", "nested-right", "source", "adapter"]
+    R.scope("a plain callable is a map: its result is ONE value of the outgoing flow, whatever its type",
+            "callables returning %s x 5 ways of composing them with a second callable that takes the result as one datum "
+            "(flat Sequence, nested on either side, Source tail, adapters.Run alone) x flows of length 0..3" % RESULT_KINDS, True)
+    for kind in RESULT_KINDS:
+        for form in forms:
+            for n in range(4):
+                R.case(n > 0, {"result": kind, "form": form, "n": n})
+                r = container_result_case(kind, form, n)
+                if r:
+                    R.fail("Run._call_run/%s" % r[0], "callable returning a %s, %s, %d values: %s" % (kind, form, n, r[1]),
+                           {"result": kind, "form": form, "n": n}, {"fn": "replay_container_result", "args": [kind, form, n]})
+
+
+_body_main = body
+
+
+def body(R):
+    _body_main(R)
+    body_callable_results(R)
+
+
 if __name__ == "__main__":
-    R = Run("C01", {"replay_compose": replay_compose, "replay_bad": replay_bad, "replay_run_adapter": replay_run_adapter,
+    R = Run("C01", {"replay_container_result": replay_container_result, "replay_compose": replay_compose, "replay_bad": replay_bad, "replay_run_adapter": replay_run_adapter,
                     "replay_flatten": replay_flatten, "replay_alter": replay_alter,
                     "replay_second_call": replay_second_call})
     sys.exit(R.main(body, "reference = staged left fold of the elements' own stream transformations over the materialised "
